@@ -188,4 +188,34 @@ theorem orderedMergeLeft_all (lu : Bool) {L R : List Int} (xss : List (List Int)
       simp only [orderedMergeLeft, hs, Sinks.count, Option.any_none, hemp, hst, Bool.not_true, Bool.false_and,
         Bool.false_eq_true, if_false, if_true, hmap, streamingMapFields, hstream]
 
+/-- the forms of an `ordered_merge_left` call the theorems cover (all the code has): no sinks, Field sinks, or one
+    zero-initialised ndarray of `rows` entries per payload; ndarray or Field keys and sources; with or without the map
+    field. When the call is the streamed one the chunk size is at least 1 and the source table has at most
+    `INVALID_INDEX = 2^62` rows (the marker is not a row number). -/
+def FormOK (cs : Nat) (c : Cfg) (rows npayloads srcRows : Nat) : Prop :=
+  (c.sinks = .none ∨ c.sinks = .fields ∨ c.sinks = zeroArrays rows npayloads) ∧
+  (streamable c = true → 1 ≤ cs ∧ (srcRows : Int) ≤ INVALID_INDEX)
+
+/-- every covered form succeeds and delivers the same columns (returned, or written to the sinks); the streamed form
+    also leaves the join map in the map field -/
+theorem orderedMergeLeft_any (lu : Bool) {L R : List Int} (xss : List (List Int))
+    (hL : Sorted L) (hR : R.Pairwise (· < ·)) (hlu : lu = true → L.Pairwise (· < ·))
+    (hne : xss ≠ []) (hlen : ∀ xs ∈ xss, xs.length = R.length) :
+    ∃ cols, MappedCols (encR INVALID_INDEX (leftJoin L R)) INVALID_INDEX xss cols ∧
+      ∀ (cs : Nat) (c : Cfg), FormOK cs c L.length xss.length R.length →
+        ∃ o, orderedMergeLeft cs c lu true L R (xss.map .numeric) = .ok o ∧ o.returned.getD o.sinks = cols ∧
+          (streamable c = true → o.map = some (encR INVALID_INDEX (leftJoin L R))) := by
+  obtain ⟨cols, h1, h2⟩ := orderedMergeLeft_all lu xss hL hR hlu hne hlen
+  refine ⟨cols, h1, fun cs c hf => ?_⟩
+  obtain ⟨a, b, d, e⟩ := h2 cs c
+  cases hst : streamable c with
+  | true =>
+    obtain ⟨g1, g2⟩ := hf.2 hst
+    exact ⟨_, e hst g1 g2, rfl, fun _ => rfl⟩
+  | false =>
+    rcases hf.1 with hs | hs | hs
+    · exact ⟨_, a hs, rfl, fun h => by cases h⟩
+    · exact ⟨_, b hs hst, rfl, fun h => by cases h⟩
+    · exact ⟨_, d hs, rfl, fun h => by cases h⟩
+
 end Exetera.JoinOld
